@@ -97,7 +97,7 @@ func kdeRecord(out io.Writer, args []string) error {
 			return kdeEvent{Op: op, Xs: []sbig{}, Ws: []int{}, Hm: []int{}, Lo: sbigI(0), Hi: sbigI(0), X: sbigI(0), Pdf: zero, Cdf: zero, HAfter: zero, HRef: zero,
 				G: []kdeImg{}, BLo: zero, BHi: zero, Mass: zero, Seed: *rf.seed, Idx: idx}
 		}
-		sc := []int{-8, 0, 5}[rng.Intn(3)]
+		sc := []int{-8, 0, 5, -20, -33}[rng.Intn(5)] // the scale of the data: 2^-33 (1e-10) .. 2^5
 		ev := blank("Reset")
 		ev.Sc = sc
 		if err := enc.Encode(ev); err != nil {
@@ -494,7 +494,7 @@ func kdeRecord(out io.Writer, args []string) error {
 					return err
 				}
 			}
-			if rng.Intn(2) == 0 {
+			if rng.Intn(2) == 0 || sc < -10 {
 				ev = blank("Bounds")
 				lo, hi := kde.Bounds()
 				ev.BLo, ev.BHi = mkfdy(lo), mkfdy(hi)
